@@ -227,6 +227,41 @@ def run(ctx):
             if r[k] != ans[k]:
                 ctx.drift("layers." + k, "model %s=%r real=%r (input %r)" % (k, ans[k], r[k], ls), case)
                 break
+    world_order_cases(ctx)
+
+
+def world_order_cases(ctx):
+    """the run order of whole runs: generated worlds in which several layers cannot be torn down (the rest is
+    resumed in subprocesses, one after another) and the layers own different numbers of tests"""
+    from harness import corr_world as cw
+    from harness import worlds
+    rng = ctx.rng
+    cases = []
+    for i in range(8 if ctx.quick() else 150):
+        w = worlds.gen_world(rng, n_layers=rng.choice([3, 4, 5]), tests_per_layer=(1, 4), kinds=["pass"], p_fault=0.0,
+                             p_write=0.0)
+        non_unit = [l for l in w["layers"] if l["kind"] != "unit"]
+        for l in non_unit:
+            l["setUp"] = l["tearDown"] = True
+        for l in rng.sample(non_unit, min(len(non_unit), rng.choice([1, 2]))):
+            l["tearDownFaults"] = [[999999, 2]]
+        o = {"verbose": rng.choice([0, 1]), "processes": 1, "argseed": rng.randint(0, 10 ** 6)}
+        cases.append(cw.Case(w, o))
+    cw.run_real_cases(ctx, cases)
+    cw.run_models(ctx, cases)
+    for c in cases:
+        ctx.count(("world-order", json_key(c)), nontrivial=True, sample=None)
+        ctx.bump("world-order-runs")
+        if c.obs.timeout:
+            continue
+        bad = cw.run_order_violation(c)
+        if bad:
+            ctx.violation(bad, c.replay_obj(), signature="world-run-order")
+
+
+def json_key(c):
+    import json
+    return json.dumps(c.replay_obj(), sort_keys=True, default=str)[:2000]
 
 
 def search(ctx, budget_s=90):
